@@ -1,4 +1,6 @@
-use super::field_utils::{parse_name_and_address, parse_party_identifier};
+use super::field_utils::{
+    ensure_no_surplus_lines, parse_name_and_address, parse_party_identifier,
+};
 use super::swift_utils::{parse_bic, parse_swift_chars};
 use crate::errors::ParseError;
 use crate::traits::SwiftField;
@@ -207,6 +209,7 @@ impl SwiftField for Field59A {
         }
 
         let bic = parse_bic(lines[bic_line_idx])?;
+        ensure_no_surplus_lines(&lines, bic_line_idx + 1, "Field 59A")?;
 
         Ok(Field59A { account, bic })
     }
